@@ -377,6 +377,8 @@ def _emission(chk, fi, fm, loop) -> None:
             chk.ok("sorted-emission", fi.site(site), "base pairs are emitted from sorted(base_base_pairs)")
         elif norm(it) in ("base_base_pairs", "set(base_base_pairs)", "list(base_base_pairs)", "reversed(base_base_pairs)"):
             chk.violation("sorted-emission", fi.site(site), f"base pairs are emitted by iterating `{norm(it)}`, not sorted(base_base_pairs): the order of the list follows the contact counting order", K(fi, "bp-emission"), found=norm(it))
+        elif isinstance(it, ast.Call) and astq.callee_name(it) == "sorted" and len(it.args) == 1 and norm(it.args[0]) == "base_base_pairs" and any(k.arg == "key" for k in it.keywords):
+            c11e.check_sort_key(chk, fi, it, "sorted-emission", "base pairs")
         else:
             chk.error("sorted-emission", fi.site(site), f"emission source `{norm(it)}` not recognised")
         want = f"BasePair(Residue({a}.label, {a}.auth), Residue({b}.label, {b}.auth), {l}, detect_saenger({a}, {b}, {l}))"
